@@ -1293,6 +1293,7 @@ Tokenizer_parse_comment(Tokenizer *self)
                 return -1;
             }
             if (Tokenizer_emit_all(self, comment)) {
+                Py_DECREF(comment);
                 return -1;
             }
             Py_DECREF(comment);
@@ -1652,16 +1653,20 @@ Tokenizer_handle_blacklisted_tag(Tokenizer *self)
                 if (this == '>') {
                     buf_tmp = Textbuffer_render(buffer);
                     if (!buf_tmp) {
+                        Textbuffer_dealloc(buffer);
                         return NULL;
                     }
                     end_tag = strip_tag_name(buf_tmp, 0);
                     Py_DECREF(buf_tmp);
                     if (!end_tag) {
+                        Textbuffer_dealloc(buffer);
                         return NULL;
                     }
                     start_tag =
                         strip_tag_name(Tokenizer_tag_name_token(self), 1);
                     if (!start_tag) {
+                        Py_DECREF(end_tag);
+                        Textbuffer_dealloc(buffer);
                         return NULL;
                     }
                     cmp = PyUnicode_Compare(start_tag, end_tag);
@@ -1671,6 +1676,7 @@ Tokenizer_handle_blacklisted_tag(Tokenizer *self)
                         goto no_matching_end;
                     }
                     if (Tokenizer_emit(self, TagOpenClose)) {
+                        Textbuffer_dealloc(buffer);
                         return NULL;
                     }
                     if (Tokenizer_emit_textbuffer(self, buffer)) {
@@ -1936,6 +1942,7 @@ Tokenizer_handle_invalid_tag_start(Tokenizer *self)
     }
     // Set invalid=True flag of TagOpenOpen
     if (PyObject_SetAttrString(PyList_GET_ITEM(tag, 0), "invalid", Py_True)) {
+        Py_DECREF(tag);
         return -1;
     }
     if (Tokenizer_emit_all(self, tag)) {
@@ -1974,7 +1981,8 @@ Tokenizer_parse_tag(Tokenizer *self)
 }
 
 /*
-    Write the body of a tag and the tokens that should surround it.
+    Write the body of a tag and the tokens that should surround it. Steals a
+    reference to body, also on failure.
 */
 static int
 Tokenizer_emit_style_tag(Tokenizer *self,
@@ -1986,25 +1994,31 @@ Tokenizer_emit_style_tag(Tokenizer *self,
 
     markup = PyUnicode_FromString(ticks);
     if (!markup) {
+        Py_DECREF(body);
         return -1;
     }
     kwargs = PyDict_New();
     if (!kwargs) {
         Py_DECREF(markup);
+        Py_DECREF(body);
         return -1;
     }
     PyDict_SetItemString(kwargs, "wiki_markup", markup);
     Py_DECREF(markup);
     if (Tokenizer_emit_kwargs(self, TagOpenOpen, kwargs)) {
+        Py_DECREF(body);
         return -1;
     }
     if (Tokenizer_emit_text(self, tag)) {
+        Py_DECREF(body);
         return -1;
     }
     if (Tokenizer_emit(self, TagCloseOpen)) {
+        Py_DECREF(body);
         return -1;
     }
     if (Tokenizer_emit_all(self, body)) {
+        Py_DECREF(body);
         return -1;
     }
     Py_DECREF(body);
@@ -2111,20 +2125,26 @@ Tokenizer_parse_italics_and_bold(Tokenizer *self)
             RESET_ROUTE();
             self->head = reset;
             if (Tokenizer_emit_text(self, "'''")) {
+                Py_DECREF(stack);
                 return -1;
             }
             return Tokenizer_emit_style_tag(self, "i", "''", stack);
         }
         if (!stack2) {
+            Py_DECREF(stack);
             return -1;
         }
         if (Tokenizer_push(self, 0)) {
+            Py_DECREF(stack);
+            Py_DECREF(stack2);
             return -1;
         }
         if (Tokenizer_emit_style_tag(self, "i", "''", stack)) {
+            Py_DECREF(stack2);
             return -1;
         }
         if (Tokenizer_emit_all(self, stack2)) {
+            Py_DECREF(stack2);
             return -1;
         }
         Py_DECREF(stack2);
@@ -2143,20 +2163,26 @@ Tokenizer_parse_italics_and_bold(Tokenizer *self)
         RESET_ROUTE();
         self->head = reset;
         if (Tokenizer_emit_text(self, "''")) {
+            Py_DECREF(stack);
             return -1;
         }
         return Tokenizer_emit_style_tag(self, "b", "'''", stack);
     }
     if (!stack2) {
+        Py_DECREF(stack);
         return -1;
     }
     if (Tokenizer_push(self, 0)) {
+        Py_DECREF(stack);
+        Py_DECREF(stack2);
         return -1;
     }
     if (Tokenizer_emit_style_tag(self, "b", "'''", stack)) {
+        Py_DECREF(stack2);
         return -1;
     }
     if (Tokenizer_emit_all(self, stack2)) {
+        Py_DECREF(stack2);
         return -1;
     }
     Py_DECREF(stack2);
